@@ -172,16 +172,9 @@ func (p *parser) expression(prec int) (Node, error) {
 					return nil, err
 				}
 
-				if isProjectNode(node) {
-					node = &ProjectArrayNode{
-						Left:  node,
-						Right: right,
-					}
-				} else {
-					node = &PipeNode{
-						Left:  node,
-						Right: right,
-					}
+				node = &PipeNode{
+					Left:  node,
+					Right: right,
 				}
 			default:
 				return nil, &unexpectedTokenError{p.curr.Value}
